@@ -34,6 +34,9 @@ Qed.
 Lemma one_minus_cos_nonneg x : 0 <= 1 - cos x.
 Proof. pose proof (COS_bound x). lra. Qed.
 
+Lemma abs_sq_le x h : Rabs x <= h -> x * x <= h * h.
+Proof. unfold Rabs. destruct (Rcase_abs x); intros; nra. Qed.
+
 (* nearest point of an equispaced 1-D grid *)
 Lemma nearest_grid h n x : 0 < h -> 0 <= x <= INR n * h ->
   exists k, (k <= n)%nat /\ Rabs (x - INR k * h) <= h / 2.
@@ -195,8 +198,8 @@ Proof.
       split; nra. }
     eapply Rle_trans; [apply (polar_dot_bound _ _ a t (a - INR k * hA) Ht Hpj Hc)|].
     assert (D1 : (INR j * hT - t) * (INR j * hT - t) <= hT / 2 * (hT / 2)).
-    { apply Rabs_le_inv in Hdj. nra. }
+    { apply abs_sq_le. replace (INR j * hT - t) with (- (t - INR j * hT)) by ring. rewrite Rabs_Ropp. exact Hdj. }
     assert (D2 : (a - INR k * hA) * (a - INR k * hA) <= hA / 2 * (hA / 2)).
-    { apply Rabs_le_inv in Hdk. nra. }
+    { apply abs_sq_le. exact Hdk. }
     lra.
 Qed.
